@@ -243,7 +243,7 @@ def parse_wfx(tok):
     return out
 
 
-def check_wfx(core, chk, b, cases, excuse, maxbuf=700, limit=10):
+def check_wfx(core, chk, b, cases, excuse, maxbuf=700, limit=10, found_so_far=False):
     """the whole AST emitted by yr_re_ast_emit_code into a private arena and run EXHAUSTIVELY by the C VM forwards from
     every position and backwards from every position, against the specification's sets (function level: emit + VM = spec,
     independent of atoms and of the scan loop).  `excuse(case, kind)` says whether a listed finding covers a deviation of
@@ -253,10 +253,12 @@ def check_wfx(core, chk, b, cases, excuse, maxbuf=700, limit=10):
         toks = dict(t.split("=", 1) for t in c.split()[1:] if "=" in t)
         if "mstr" in toks or toks.get("buf", "-") == "-" or len(toks.get("buf", "")) // 2 > maxbuf:
             continue
+        big = [int(x) for m_ in __import__("re").finditer(r"J[gl](\d+),(\d+)", toks["re"]) for x in m_.groups()]
+        if "A(" in toks["re"] and any(x > 200 for x in big):
+            continue      # an unsplit pattern with alternatives AND a chaining jump never runs as one piece in the engine (general VM, 65535-wide jump)
         lines.append("%s src=%s re=%s fl=%s buf=%s wfx=1" % (c.split(" ", 1)[0], toks["src"], toks["re"], toks.get("fl", "a"), toks["buf"]))
     omap, crashers = run_robust(core, [b["h_re"]], lines)
-    model, _, _ = core.run_parallel([core.driver_path(), "re"], lines)
-    mm = {l.split(" ", 1)[0]: l for l in model}
+    mm, _ = run_robust(core, [core.driver_path(), "re"], lines, chunk_timeout=300, single_timeout=20)
     res = {"cases": len(lines), "agree": 0, "subset_known": 0, "limit_errors": 0, "crash_known": 0, "violations": 0, "positions_compared": 0}
     crashed = {c.split(" ", 1)[0]: (c, r, e) for c, r, e in crashers}
     found = False
@@ -308,8 +310,7 @@ def check_wfx(core, chk, b, cases, excuse, maxbuf=700, limit=10):
     # ---- the Lean model of _yr_re_emit against the bytes the real function wrote (forward and backward code)
     elines = [l[:-1] + "2" for l in lines]            # wfx=1 -> wfx=2
     eo, ecr = run_robust(core, [b["h_re"]], elines)
-    em, _, _ = core.run_parallel([core.driver_path(), "re"], elines)
-    emm = {l.split(" ", 1)[0]: l for l in em}
+    emm, _ = run_robust(core, [core.driver_path(), "re"], elines, chunk_timeout=300, single_timeout=20)
     res["emit_compared"] = 0; res["emit_mismatch"] = 0
     for l in elines:
         cid = l.split(" ", 1)[0]
@@ -326,6 +327,7 @@ def check_wfx(core, chk, b, cases, excuse, maxbuf=700, limit=10):
             res["emit_mismatch"] += 1
             if res["emit_mismatch"] <= 3:
                 chk.violation("emit_%s.json" % cid, {"kind": "bytecode written by yr_re_ast_emit_code differs from the Lean model of _yr_re_emit", "engine": "re", "harness": "h_re",
-                                                    "case": l, "implementation": ccode[:1500], "model": m.split()[2][:1500]})
+                                                    "case": l, "implementation": ccode[:1500], "model": m.split()[2][:1500]},
+                              no_input=not (found or found_so_far))
             found = True
     return res, found
